@@ -238,6 +238,9 @@ pub fn execute(v: &Value) -> String {
         }
     }
     let mut attempts = vec![];
+    // a graph of the same library, for the table oracle of a note written into another directory
+    let oracle_options = MarkdownOptions { refs_extension: ext.to_string() };
+    let oracle_graph = catch_unwind(AssertUnwindSafe(|| liwe::graph::Graph::import(&lib_stage::state_of(&notes), oracle_options.clone()))).ok();
     if let Ok(server) = &server {
         for a in v["attempts"].as_array().cloned().unwrap_or_default() {
             let doc = a[0].as_str().unwrap_or("").to_string();
@@ -277,10 +280,28 @@ pub fn execute(v: &Value) -> String {
                     (format!("(Ok (REdits {}))", glist(&ops.iter().map(op_gal).collect::<Vec<_>>())), apply_ops(&files, &ops))
                 }
             };
+            // oracle: the text of the tables of the note under the cursor as they are written where the
+            // note goes (a rename into another directory writes the note links of its cells relative to it)
+            let moved_tables: Vec<String> = catch_unwind(AssertUnwindSafe(|| {
+                let url = server.database().parser(&doc_key).and_then(|p| p.url_at(liwe::model::Position { line, character: ch }));
+                match url {
+                    Some(u) => {
+                        let target = Key::from_rel_link_url(&u, &doc_key.parent());
+                        let new_key = Key::from_rel_link_url(&new_name, &doc_key.parent());
+                        match &oracle_graph {
+                            Some(g) => lib_stage::tables_of_at(g, &target, &new_key.parent(), &oracle_options),
+                            None => vec![],
+                        }
+                    }
+                    None => vec![],
+                }
+            }))
+            .unwrap_or_default();
+            let tables_gal = glist(&moved_tables.iter().map(|t| gstr(t)).collect::<Vec<_>>());
             let after_gal = gopt(after.map(|f| {
                 glist(&f.iter().map(|(s, t)| format!("({}, {}, {})", gstr(s), gstr(t), reread(t))).collect::<Vec<_>>())
             }));
-            attempts.push(gapp("AT", &[gstr(&doc_key.to_string()), gres(site), gres(prepare), gstr(&new_name), result_gal, after_gal]));
+            attempts.push(gapp("AT", &[gstr(&doc_key.to_string()), gres(site), gres(prepare), gstr(&new_name), tables_gal, result_gal, after_gal]));
         }
     }
     gapp("RC", &[lc, texts, gbool(server.is_ok()), glist(&attempts)])
